@@ -57,7 +57,7 @@ def main():
     env.pop("RUSTFLAGS", None)
     henv = dict(env, RUSTFLAGS="--cfg flounder_verif")
     head = subprocess.check_output("git -C /repo rev-parse HEAD", shell=True, text=True).strip()
-    sh("git checkout -q -- . ; git clean -fdq -e target -e target-hooks ; git checkout -q --detach %s" % head, cwd=wt)
+    sh("git reset -q --hard ; git clean -fdq -e target -e target-hooks ; git checkout -q --detach %s" % head, cwd=wt)
     log = {"property": prop, "index": n, "repo_head": head, "ran": []}
 
     rc, out = sh("git apply --check %s && git apply %s" % (patch, patch), cwd=wt)
